@@ -6,7 +6,9 @@ package trzsz
 // implicit: a Go panic on any path, or an allocation above 2 GiB on the strength of one length field, is a violation.
 
 import (
+	"crypto/md5"
 	"encoding/json"
+	"fmt"
 	"strconv"
 )
 
@@ -76,8 +78,16 @@ func zzH_C12_recvPrefixHash() {
 	js, err := json.Marshal(&sourceFile{PathID: 0, RelPath: []string{"f"}, Size: 10})
 	verifAssume(err == nil)
 	t.buffer.addBuffer([]byte("#NAME:" + encodeString(string(js)) + "\n"))
+	content := []byte("0123456789")
 	for k := 0; k < 2; k++ {
 		h := &prefixHash{Step: int64(verifNondetInt()), Hash: "00"}
+		if k == 0 && verifNondetBool() {
+			// a first record that matches the local prefix (so that the proven prefix is non-empty afterwards)
+			m := verifNondetRange(1, 10)
+			hs := md5.New()
+			hs.Write(content[:m])
+			h = &prefixHash{Step: int64(m), Hash: fmt.Sprintf("%x", hs.Sum(nil))}
+		}
 		hj, err := json.Marshal(h)
 		verifAssume(err == nil)
 		t.buffer.addBuffer([]byte("#HASH:" + encodeString(string(hj)) + "\n"))
